@@ -1469,6 +1469,7 @@ type retRow struct {
 	cond *pcF
 	val  ssa.Value
 	pos  token.Pos
+	ctx  *symCtx // the helper invocation val stands in (ExpandReturns); nil in the function itself
 }
 
 // retTable lists the exits of a loop-free function with the condition of
@@ -1532,13 +1533,13 @@ func (s *Sym) retTableCtx(fn *ssa.Function, idx int, ctx *symCtx, depth int) []r
 				if g != nil && !recursive && g.Blocks != nil && len(g.Blocks) <= 60 && len(ssaLoops(g)) == 0 && strings.HasPrefix(pkgPathOf(g), modPath) && j < g.Signature.Results().Len() {
 					nctx := &symCtx{call: call, parent: ctx}
 					for _, r := range s.retTableCtx(g, j, nctx, depth+1) {
-						out = append(out, retRow{pcAndF(cond, r.cond), r.val, r.pos})
+						out = append(out, retRow{pcAndF(cond, r.cond), r.val, r.pos, r.ctx})
 					}
 					return
 				}
 			}
 		}
-		out = append(out, retRow{cond, s.Resolve(v, ctx), pos})
+		out = append(out, retRow{cond, s.Resolve(v, ctx), pos, ctx})
 	}
 	for _, b := range fn.Blocks {
 		ret, ok := b.Instrs[len(b.Instrs)-1].(*ssa.Return)
